@@ -67,3 +67,8 @@ CHECKS["C05"] = ("exploration",
   "Individual-level operation histories are enumerated to a length bound and generated randomly, with is_evaluated / get_objective / objective() / solution probed after every step against a model. For runs, the step observer audits after EVERY component execution of every one of the 21 templates (random valid parameters, instances, seeds) that each evaluated individual reachable in any scope - population stack, best-so-far, elitist archive, swarm and molecule memories - carries bit-exactly f(solution) of the harness objective.",
   "Hook: step observer. The harness objective is a pure function recomputed by the oracle.",
   "DESIGN.md §6 C05")
+CHECKS["C06"] = ("exploration",
+  "proptest over prepared states for the evaluation step (population x identifier x evaluator x rayon pool size x scope placement x latency jitter) and over template runs (iteration / evaluation-budget bounded, sequential / parallel) audited around every evaluation step through the step observer, with a call-counting objective",
+  "A one-step configuration is run (init, require, execute) on generated states: the population must come back in order, every individual carrying f(solution), the counter advanced by exactly the population size, the objective call log equal to the population as a multiset, the evaluator back in the scope it was registered in, and a missing evaluator reported before any objective call. In template runs the same audit brackets every PopulationEvaluator execution, the reported total must equal the number of objective invocations, and a budget-bounded loop must overshoot by less than one pass. Parallel cases run inside rayon pools of 1/2/4/16 threads with pseudo-random objective latency; the evidence counts runs in which completion order actually differed from call order.",
+  "The rayon schedule is perturbed, not enumerated. Budget loops are additionally capped at 150 iterations so that a broken counter cannot hang the harness.",
+  "DESIGN.md §6 C06")
